@@ -304,9 +304,32 @@ func (e *engine) Gen(r *hlib.Rand, tier string) []string {
 							dup = true
 						}
 					}
+					// ... and none with a key added earlier in the case (e.g. 61@0 vs 61ff@255): with a
+					// padding-conflated partner the ART stores duplicates whose layout depends on the
+					// insertion order, which a concurrent batch does not fix
+					raw := kv.KeyWithTs(u, v)
+					for _, a := range added {
+						av, _ := strconv.ParseUint(a[1], 10, 64)
+						if conflates(raw, kv.KeyWithTs(hlib.UnHex(a[0]), av)) {
+							dup = true
+						}
+					}
+					for _, p := range pool {
+						pv, _ := strconv.ParseUint(p[1], 10, 64)
+						if conflates(raw, kv.KeyWithTs(hlib.UnHex(p[0]), pv)) {
+							dup = true
+						}
+					}
 					if !dup {
 						pool = append(pool, [3]string{hlib.Hex(u), strconv.FormatUint(v, 10), nextVal()})
 					}
+				}
+				if len(pool) == 0 {
+					ops = append(ops, "scan asc")
+					continue
+				}
+				for _, p := range pool {
+					added = append(added, [2]string{p[0], p[1]})
 				}
 				for j := 0; j < g; j++ {
 					var items []string
@@ -334,6 +357,23 @@ func (e *engine) Gen(r *hlib.Rand, tier string) []string {
 	}
 	ops = append(ops, "scan asc", "scan desc")
 	return ops
+}
+
+// conflates: one raw key equals the other followed only by zero bytes (what keyByte's zero
+// padding cannot tell apart)
+func conflates(a, b []byte) bool {
+	if len(a) > len(b) {
+		a, b = b, a
+	}
+	if len(a) == len(b) || string(b[:len(a)]) != string(a) {
+		return false
+	}
+	for _, x := range b[len(a):] {
+		if x != 0 {
+			return false
+		}
+	}
+	return true
 }
 
 func bigKey(seed, n int) []byte {
@@ -499,6 +539,7 @@ func (e *engine) Exec(ops []string) []string {
 				wg.Wait()
 			}
 			e.concBatches++
+			var present map[string]bool
 			for _, g := range groups {
 				for _, it := range strings.Split(g, ",") {
 					p := strings.Split(it, ":")
@@ -508,10 +549,22 @@ func (e *engine) Exec(ops []string) []string {
 					// an insert (never anything else: the scan below is still compared in full).  A lost
 					// key is counted and re-inserted sequentially so that the rest of the case stays
 					// comparable with the sequential model; the skiplist is never repaired.
+					// Presence is decided on the full leaf scan, not with Search: Search has false
+					// negatives for padding-conflated keys (finding art-radix-pad-conflate), and a
+					// re-insert of a key that is present would itself add a duplicate leaf.
 					k := kv.KeyWithTs(hlib.UnHex(p[0]), v)
-					if len(art.Search(k).Value) == 0 {
+					if present == nil {
+						present = map[string]bool{}
+						it := art.NewIterator(&utils.Options{IsAsc: true})
+						for it.Rewind(); it.Valid(); it.Next() {
+							present[string(it.Item().Entry().Key)] = true
+						}
+						it.Close()
+					}
+					if !present[string(k)] {
 						e.concLostInserts++
 						art.Add(&kv.Entry{Key: k, Value: hlib.UnHex(p[2])})
+						present[string(k)] = true
 					}
 				}
 			}
